@@ -9,7 +9,7 @@
 //!       → `subj <paths> clip <paths> raw <shapes>×7 rules <name>×4 res <MPG>×4`
 //!         (raw: the engine's answer for each of its seven `OverlayRule`s in declaration order, fill
 //!         EvenOdd; rules / res: for Intersection, Union, Difference, Xor)
-//!   C04.unary u n <PG>…
+//!   C04.unary u n <PG|MPG>…   (all members of one type; a mix is evaluated as MultiPolygons)
 //!       → `subj <paths> pos <raw shapes> neg <raw shapes> res <MPG> fold <MPG>`
 //!         (`fold` = members folded with the pairwise `union`, starting from the empty MultiPolygon)
 //!   C04.clip u <PG|MPG> <MLS>
@@ -127,21 +127,29 @@ pub fn eval(op: &str, t: &mut Toks) -> R<String> {
         "C04.unary" => {
             let _u = t.num()?;
             let n = t.usize()?;
-            let mut ps = vec![];
+            let mut bs = vec![];
             for _ in 0..n {
-                match t.geom()? {
-                    Geometry::Polygon(p) => ps.push(p),
-                    _ => return Err("expected PG".into()),
-                }
+                bs.push(areal(t)?);
             }
-            let subj: Vec<Path> = ps.iter().flat_map(|p| p.rings().map(verif::ring_to_shape_path).collect::<Vec<_>>()).collect();
+            // `unary_union` takes one boppable type: all Polygon, or all MultiPolygon
+            let all_poly = bs.iter().all(|b| matches!(b, Areal::P(_)));
+            let subj: Vec<Path> = bs.iter().flat_map(rings_of).collect();
             let pos = verif::engine_single(&subj, "Positive");
             let neg = verif::engine_single(&subj, "Negative");
-            let res = unary_union(ps.iter());
             let mut fold = MultiPolygon::<f64>(vec![]);
-            for p in &ps {
-                fold = fold.union(p);
-            }
+            let res = if all_poly {
+                let ps: Vec<Polygon<f64>> = bs.iter().map(|b| match b { Areal::P(p) => p.clone(), Areal::M(_) => unreachable!() }).collect();
+                for p in &ps {
+                    fold = fold.union(p);
+                }
+                unary_union(ps.iter())
+            } else {
+                let ms: Vec<MultiPolygon<f64>> = bs.iter().map(|b| match b { Areal::P(p) => MultiPolygon(vec![p.clone()]), Areal::M(m) => m.clone() }).collect();
+                for m in &ms {
+                    fold = fold.union(m);
+                }
+                unary_union(ms.iter())
+            };
             Ok(format!(
                 "subj {} pos {} neg {} res {} fold {}",
                 paths_str(&subj),
@@ -325,6 +333,25 @@ fn gen_bool(rng: &mut Rng) -> String {
 
 fn gen_unary(rng: &mut Rng) -> String {
     let k = *rng.pick(&[3i64, 4, 6]);
+    if rng.chance(1, 5) {
+        // a collection of MultiPolygons (members may overlap each other), consistently wound
+        let d = if rng.chance(1, 2) { Direction::Default } else { Direction::Reversed };
+        let n = rng.range(1, 3);
+        let gs: Vec<Geometry<f64>> = (0..n)
+            .map(|_| {
+                let m = gen_multipolygon(rng, k);
+                let m = if m.0.is_empty() { MultiPolygon(vec![gen_polygon(rng, k)]) } else { m };
+                Geometry::MultiPolygon(m.orient(d))
+            })
+            .collect();
+        let (u, gs) = place(rng, gs);
+        let mut s = format!("C04.unary {} {}", proto::num(u), gs.len());
+        for g in &gs {
+            s.push(' ');
+            s.push_str(&proto::geom(g));
+        }
+        return s;
+    }
     let mut ps: Vec<Polygon<f64>> = vec![];
     match rng.below(4) {
         0 => {
